@@ -161,9 +161,9 @@ class _AdaByronAddrAttrs(NamedTuple):
                 or (len(attrs_dict) != 0 and 1 not in attrs_dict and 2 not in attrs_dict)
                 or not all(isinstance(attr_val, bytes) for attr_val in attrs_dict.values())):
             raise ValueError("Invalid address attributes")
-        hd_path_enc_bytes = cbor2.loads(attrs_dict[1]) if 1 in attrs_dict else None
+        hd_path_enc_bytes = _CborLoadsExact(attrs_dict[1]) if 1 in attrs_dict else None
         # The encrypted HD path shall be a byte string
-        if hd_path_enc_bytes is not None and not isinstance(hd_path_enc_bytes, bytes):
+        if 1 in attrs_dict and not isinstance(hd_path_enc_bytes, bytes):
             raise ValueError("Invalid address attributes")
         return cls(
             hd_path_enc_bytes,
@@ -249,7 +249,8 @@ class _AdaByronAddrPayload(NamedTuple):
                 or len(addr_payload) != 3
                 or not isinstance(addr_payload[0], bytes)
                 or not isinstance(addr_payload[1], dict)
-                or not isinstance(addr_payload[2], int)):
+                or not isinstance(addr_payload[2], int)
+                or isinstance(addr_payload[2], bool)):
             raise ValueError("Invalid address payload")
         # Check key hash length
         AddrDecUtils.ValidateLength(addr_payload[0],
@@ -326,7 +327,8 @@ class _AdaByronAddr(NamedTuple):
                 or len(addr_bytes) != 2
                 or not isinstance(addr_bytes[0], cbor2.CBORTag)
                 or not isinstance(addr_bytes[0].value, bytes)
-                or not isinstance(addr_bytes[1], int)):
+                or not isinstance(addr_bytes[1], int)
+                or isinstance(addr_bytes[1], bool)):
             raise ValueError("Invalid address encoding")
         # Get and check CBOR tag
         cbor_tag = addr_bytes[0]
